@@ -823,7 +823,8 @@ REGRESSION_TEXTS = [
 
 def random_wf_graph(rng, info, nvars_max):
     zero = rng.choice([0, 0.0])
-    consts = ['x', '"s"', 7, zero, -1.5, None, 'k', '']
+    # string constants may hold any character but CR/LF, incl. the other line-boundary characters of str.splitlines()
+    consts = ['x', '"s"', 7, zero, -1.5, None, 'k', '', '"u\u2028v"', '"w\x0bx \x85y\x0c"']
     roles = info.roles + rng.sample(info.inv_roles, 2)
     V, triples = gen.random_connected_graph(rng, nvars=rng.randint(1, nvars_max), nextra=rng.randint(0, 4),
                                             roles=roles, consts=consts)
